@@ -122,7 +122,13 @@ class State:
             self.aff = dict(o.aff)
             return True
         changed = False
+        # a tuple payload is absent (vacuous) on an edge where the carrier is None / Err
+        for k in list(o.iv.keys()):
+            if k[0] == 'pt' and k not in self.iv and ('ptnone', k[1]) in self.iv:
+                self.iv[k] = EMPTY
         for k in list(self.iv.keys()):
+            if k not in o.iv and k[0] == 'pt' and ('ptnone', k[1]) in o.iv:
+                continue
             if k not in o.iv:
                 del self.iv[k]
                 changed = True
@@ -391,6 +397,10 @@ class Interp:
         # payload projections: (x as Some).0 / (x as Ok).0 / (x as Continue).0
         if len(p) == 2 and p[0]['k'] == 'downcast' and p[0]['variant'] in ('Some', 'Ok', 'Continue') and p[1]['k'] == 'field' and p[1]['name'] == '0':
             return ('p', pl['l'])
+        # a tuple carried as payload: (x as Ok).0.i  (`let (a, b) = helper(..)?`)
+        if len(p) == 3 and p[0]['k'] == 'downcast' and p[0]['variant'] in ('Some', 'Ok', 'Continue') and p[1]['k'] == 'field' and p[1]['name'] == '0' \
+                and p[2]['k'] == 'field' and p[2]['name'].isdigit() and not p[2].get('owner'):
+            return ('pt', pl['l'], int(p[2]['name']))
         return None
 
     def place_range(self, pl):
@@ -469,12 +479,12 @@ class Interp:
 
     def kill(self, st, l):
         """local l is (re)assigned: forget everything that mentions it"""
-        for k in [k for k in st.iv if k[0] in ('l', 'p', 't') and k[1] == l]:
+        for k in [k for k in st.iv if k[0] in ('l', 'p', 't', 'pt', 'ptnone') and k[1] == l]:
             del st.iv[k]
         st.org.pop(l, None)
         st.cmp.pop(l, None)
         if st.mem:
-            st.mem = {k for k in st.mem if not (k[0] in ('l', 'p', 't') and k[1] == l)}
+            st.mem = {k for k in st.mem if not (k[0] in ('l', 'p', 't', 'pt') and k[1] == l)}
         if st.aff:
             st.aff = {k: v for k, v in st.aff.items() if not self._mentions(k, l) and not self._mentions(v[1], l)}
         for x in [x for x, v in st.org.items() if v[0] in ('l', 'cell') and l in v[1:]]:
@@ -642,8 +652,17 @@ class Interp:
                     pv = st.iv.get(('p', op['place']['l']))
                     if pv is not None:
                         st.iv[('p', l)] = pv
-                    if op['place']['l'] in st.cmp:
-                        st.cmp[l] = st.cmp[op['place']['l']]
+                    for k_ in [k_ for k_ in st.iv if k_[0] in ('t', 'pt') and k_[1] == op['place']['l']]:
+                        st.iv[(k_[0], l, k_[2])] = st.iv[k_]
+                    if ('ptnone', op['place']['l']) in st.iv:
+                        st.iv[('ptnone', l)] = EMPTY
+                # a tuple taken out of a payload: `_t = move (x as Continue).0`
+                pp = op['place']['p']
+                if len(pp) == 2 and pp[0]['k'] == 'downcast' and pp[0]['variant'] in ('Some', 'Ok', 'Continue') and pp[1]['k'] == 'field' and pp[1]['name'] == '0':
+                    for k_ in [k_ for k_ in st.iv if k_[0] == 'pt' and k_[1] == op['place']['l']]:
+                        st.iv[('t', l, k_[2])] = st.iv[k_]
+                if not op['place']['p'] and op['place']['l'] in st.cmp:
+                    st.cmp[l] = st.cmp[op['place']['l']]
             return
         if k == 'cast':
             op = rv['op']
@@ -751,8 +770,14 @@ class Interp:
                 iv = self.eval_op(st, rv['ops'][0])
                 if iv is not None and self.prange(l) is not None:
                     st.iv[('p', l)] = iv
+                o0 = rv['ops'][0]
+                if is_place_op(o0) and not o0['place']['p']:
+                    for k_ in [k_ for k_ in st.iv if k_[0] == 't' and k_[1] == o0['place']['l']]:
+                        st.iv[('pt', l, k_[2])] = st.iv[k_]
             elif rv.get('kind') == 'adt' and rv.get('variant') in ('None', 'Err', 'Break') and not pl['p'] and self.prange(l) is not None:
                 st.iv[('p', l)] = EMPTY
+            elif rv.get('kind') == 'adt' and rv.get('variant') in ('None', 'Err', 'Break') and not pl['p']:
+                st.iv[('ptnone', l)] = EMPTY
             elif rv.get('kind') == 'tuple' and not pl['p']:
                 for i, o in enumerate(rv['ops']):
                     iv = self.eval_op(st, o)
@@ -774,6 +799,14 @@ class Interp:
             return
         if k == 'discr' and dk is not None and rng is not None:
             st.iv[dk] = rng
+            src = rv['place']
+            if not src['p'] and (('ptnone', src['l']) in st.iv or st.iv.get(('p', src['l'])) == EMPTY):
+                # the value is None / Err / Break on every path reaching here (its payload is empty): the discriminant is known, so the
+                # switch that follows does not send this state down the Some / Ok / Continue edge
+                ty = rv.get('ty') or body.locals[src['l']]['ty']
+                v = 0 if ty.startswith('std::option::Option') else 1
+                if rng[0] <= v <= rng[1]:
+                    st.iv[dk] = (v, v)
             return
         if k in ('ref', 'rawptr'):
             # a mutable borrow of a tracked local: its value may change through the reference
@@ -1021,6 +1054,7 @@ class Interp:
         prng = self.prange(dl) if dl is not None else None
         res = None
         pres = None
+        carry_pt = []
         # ---- models of library functions -------------------------------------------------------------------
         if (name in PURE_GETTERS or PURE_GETTER_RX.match(name)) and args:
             base = self.getter_base(args[0])
@@ -1055,6 +1089,10 @@ class Interp:
                 pres = st.iv.get(('p', a0['place']['l']))
                 if ('p', a0['place']['l']) in st.mem and dl is not None:
                     st.mem.add(('p', dl))
+                if dl is not None:
+                    carry_pt = [(k_[2], st.iv[k_]) for k_ in st.iv if k_[0] == 'pt' and k_[1] == a0['place']['l']]
+                    if ('ptnone', a0['place']['l']) in st.iv:
+                        st.iv[('ptnone', dl)] = EMPTY
         elif re.search(r'^std::io::Read::read$|^model::link::Stream::<S>::read$', name) and dl is not None:
             pres = (0, LEN_MAX)
             st.mem.add(('p', dl))
@@ -1114,6 +1152,8 @@ class Interp:
                 if pres != EMPTY and (pres[0] < prng[0] or pres[1] > prng[1]):
                     pres = meet(pres, prng) if pres[0] <= prng[1] and pres[1] >= prng[0] else prng
                 st.iv[('p', dl)] = pres
+        for i_, iv_ in carry_pt:
+            st.iv[('pt', dl, i_)] = iv_
         # a vector created with a known length
         if dl is not None and name == 'std::vec::from_elem' and len(argiv) == 2:
             n = argiv[1] if argiv[1] is not None else (0, LEN_MAX)
